@@ -13,7 +13,7 @@ Definition cors_none : cors := {| c_origin := None; c_methods := None; c_headers
 
 Record croute := { cr_pat : bytes; cr_beh : hbeh; cr_cors : cors }.
 
-Definition str_Humphrey : bytes := [72;117;109;112;104;114;101;121].
+Definition str_Humphrey : bytes := server_header_value.   (* read from app.rs on every run (TablesHttp.v) *)
 Definition str_Close : bytes := [67;108;111;115;101].
 Definition str_KeepAlive : bytes := [75;101;101;112;45;65;108;105;118;101].
 Definition str_keep_alive_lower : bytes := [107;101;101;112;45;97;108;105;118;101].
